@@ -335,6 +335,23 @@ def events_for(hid, case, replies):
     return evs
 
 
+CRASHES = []        # (history id, case) of histories during which the code under test died (a panic is data)
+
+
+def run_jet_resilient(reqs):
+    """core.run_jet, but a driver that dies (panic in the code under test) costs only the request that
+    killed it: that request is answered {"crash": true} and the rest is sent to a fresh driver."""
+    out, rc = core.run_jet(reqs)
+    guard = 0
+    while len(out) < len(reqs) and guard <= len(reqs):
+        guard += 1
+        out.append({"crash": True, "rc": rc})
+        if len(out) < len(reqs):
+            more, rc = core.run_jet(reqs[len(out):])
+            out += more
+    return out, rc
+
+
 def replay_histories(cases, batch=250, procs=3):
     """run all histories through the driver (procs driver processes at a time); returns (events, index,
     raw): index[h] = (first, last) event number (1-based) of history h, raw[h] = the driver's replies."""
@@ -351,7 +368,7 @@ def replay_histories(cases, batch=250, procs=3):
             reqs += rq
         jobs.append((lo, part, reqs, spans))
     with cf.ThreadPoolExecutor(max_workers=procs) as ex:
-        outs = list(ex.map(lambda j: core.run_jet(j[2]), jobs))
+        outs = list(ex.map(lambda j: run_jet_resilient(j[2]), jobs))
     events, index, raw = [], {}, {}
     for (lo, part, reqs, spans), (out, rc) in zip(jobs, outs):
         if len(out) != len(reqs):
@@ -359,6 +376,9 @@ def replay_histories(cases, batch=250, procs=3):
         for k, (c, (s, n)) in enumerate(zip(part, spans)):
             hid = lo + k + 1
             rep = out[s:s + n]
+            if any(x.get("crash") for x in rep):
+                CRASHES.append((hid, c, reqs[s:s + n]))
+                continue
             if any("steps" not in x for x in rep) or len(rep[0]["steps"]) != len(c["h"]):
                 raise core.ToolError("driver reply malformed for history %d" % hid)
             evs = events_for(hid, c, rep)
@@ -517,7 +537,7 @@ def replay_web(cases, batch=250, procs=3):
             reqs += rq
         jobs.append((lo, part, reqs, spans))
     with cf.ThreadPoolExecutor(max_workers=procs) as ex:
-        outs = list(ex.map(lambda j: core.run_jet(j[2]), jobs))
+        outs = list(ex.map(lambda j: run_jet_resilient(j[2]), jobs))
     events, index, raw = [], {}, {}
     for (lo, part, reqs, spans), (out, rc) in zip(jobs, outs):
         if len(out) != len(reqs):
@@ -525,6 +545,9 @@ def replay_web(cases, batch=250, procs=3):
         for k, (c, (s, n, ac)) in enumerate(zip(part, spans)):
             hid = lo + k + 1
             rep = out[s:s + n]
+            if any(x.get("crash") for x in rep):
+                CRASHES.append((hid, c, reqs[s:s + n]))
+                continue
             if any("steps" not in x for x in rep) or len(rep[0]["steps"]) != len(c["h"]):
                 raise core.ToolError("driver reply malformed for web history %d: %s" % (hid, json.dumps(rep)[:300]))
             evs = hist_events_for(hid, c, rep, ac)
@@ -630,6 +653,14 @@ def describe(case, raw, step=None):
 
 def judge(run, cases, workdir, shards, name="trace", replayed=None):
     events, index, raw = replayed or replay_histories(cases)
+    for hid, c, rq in CRASHES[:20]:
+        run.report({"clause": "crash", "field": "", "kind": c["h"][-1]["k"]},
+                   {"history": c["h"], "driver_requests": rq,
+                    "rejected_clause": "crash",
+                    "property_requires": "for every history the table holds one entry per address seen ...: the "
+                                         "jet1090 driver process died (panic / abort in decode, decode_position or "
+                                         "update_snapshot) while this history was replayed"})
+    del CRASHES[:]
     rejected, mismatch, selfcheck, results = validate_by_history(events, index, workdir, shards, name)
     for r in results:
         run.add_tlc(r)
